@@ -478,9 +478,9 @@ func run(r *ev.Run) {
 		"non-trivial = ≥ 1 copy spanned an introduction (persist/merge/segment) or started with unpersisted segments; distinct by scenario seed"
 	r.Assumptions = []string{"schedules are those the seeded gate choices and delays produce"}
 	dir := r.TempDir()
-	nG := r.Scale(160, 3200)
-	nS := r.Scale(24, 480)
-	r.MinDistinct = r.Scale(30, 600)
+	nG := r.Scale(400, 3200)
+	nS := r.Scale(48, 480)
+	r.MinDistinct = r.Scale(100, 600)
 	cs := cfgs()
 	var wg sync.WaitGroup
 	sem := make(chan struct{}, 12)
